@@ -38,6 +38,7 @@ func run(c *core.Ctx) {
 		{cfg: "Gen_C01_comp_reads.cfg", dribble: []int{0, 2}},
 		{cfg: "Gen_C01_comp_pairs.cfg", dribble: []int{0, 1}},
 		{cfg: "Gen_C01_typed_multi.cfg", dribble: []int{0}},
+		{cfg: "Gen_C01_typed_sb.cfg", dribble: []int{0}},
 		{cfg: "Gen_C01_sizes_sim.cfg", dribble: []int{0}, opt: tlc.Options{Simulate: "num=120", Depth: 40, Seed: c.Seed}},
 	}
 	if c.Thorough() {
@@ -48,6 +49,7 @@ func run(c *core.Ctx) {
 			{cfg: "Gen_C01_comp_full.cfg", dribble: []int{0, 1}},
 			{cfg: "Gen_C01_comp_pairs.cfg", dribble: []int{0, 1, 2}},
 			{cfg: "Gen_C01_typed_multi.cfg", dribble: []int{0, 100}},
+			{cfg: "Gen_C01_typed_sb.cfg", dribble: []int{0}},
 			{cfg: "Gen_C01_sizes_sim.cfg", dribble: []int{0}, opt: tlc.Options{Simulate: "num=1000", Depth: 40, Seed: c.Seed}},
 		}
 	}
@@ -114,5 +116,5 @@ func run(c *core.Ctx) {
 		c.Note(fmt.Sprintf("observation (outside C01, see C12): in %d behaviours two real endpoints round-trip correctly but one side differs from the reference codec's wire format", st.FormatDeviations))
 	}
 	c.Set("exhaustive", true)
-	c.Set("rule", "behaviours = complete runs of Gen_Framing printed by TLC: (i) every sequence of <=2 messages (quick: second only after a 1-byte first) of one write each over the critical size set {0,1,4095..4097,16383..16385,Max-33..Max-31,Max-17..Max-15,Max-1..Max+1,2Max+5} plus typed string lengths, x 2 encryption modes x 3 sender APIs x 3 receiver APIs, plus seeded simulation of <=2 messages x <=3 writes (thorough: all pairs, all 2-write patterns); (ii) every composition of a 1..6 byte message into frames through SendPartialMessage/SendMessage and Message.PutBytes+FlushFrame, every composition of its reads, pairs of 0..2 byte messages with zero-length writes; (iii) typed messages of <=3 values of 100 B / 12 KiB (explicit and automatic flushes) read by <=3 GetBytes + GetRemainingBytes. Every slice a receive call returns is retained uncopied and compared again after the whole behaviour has been read. Each behaviour x connection variant (whole reads / 1..3-byte dribble) is one evaluation made of three passes (real sender -> reference parser/decryptor; real sender -> real receiver; reference-built frames at the model's cuts -> real receiver); non-trivial = at least one message completely sent")
+	c.Set("rule", "behaviours = complete runs of Gen_Framing printed by TLC: (i) every sequence of <=2 messages (quick: second only after a 1-byte first) of one write each over the critical size set {0,1,4095..4097,16383..16385,Max-33..Max-31,Max-17..Max-15,Max-1..Max+1,2Max+5} plus typed PutString lengths and PutStringBytes of k*Max, k*(Max-32) (k=1,2) +-1 alone or next to another value, x 2 encryption modes x 3 sender APIs x 3 receiver APIs, plus seeded simulation of <=2 messages x <=3 writes (thorough: all pairs, all 2-write patterns); (ii) every composition of a 1..6 byte message into frames through SendPartialMessage/SendMessage and Message.PutBytes+FlushFrame, every composition of its reads, pairs of 0..2 byte messages with zero-length writes; (iii) typed messages of <=3 values of 100 B / 12 KiB (explicit and automatic flushes) read by <=3 GetBytes + GetRemainingBytes. Every slice a receive call returns is retained uncopied and compared again after the whole behaviour has been read. Each behaviour x connection variant (whole reads / 1..3-byte dribble) is one evaluation made of three passes (real sender -> reference parser/decryptor; real sender -> real receiver; reference-built frames at the model's cuts -> real receiver); non-trivial = at least one message completely sent")
 }
